@@ -43,6 +43,14 @@ struct Round15 {
             st.evals += 3;
             if (au::round_in<int64_t>(Dst{}, q) != static_cast<int64_t>(ro) || au::floor_as<int64_t>(Dst{}, q).in(Dst{}) != static_cast<int64_t>(fl) || au::ceil_in<int32_t>(Dst{}, q) != static_cast<int32_t>(ce)) fail(x, "explicit-rep form differs from static_cast of the implicit form");
         }
+        if (std::fabs(e) < 16777216.0L) {   // below 2^24 every integral result is exact in float too: a floating OutputRep narrower (or wider) than the rounding rep must not move the result
+            st.evals += 6;
+            auto pt2 = au::make_quantity_point<Src>(x);
+            if ((long double)au::round_in<float>(Dst{}, q) != (long double)ro || (long double)au::floor_as<float>(Dst{}, q).in(Dst{}) != lf || (long double)au::ceil_in<float>(Dst{}, q) != lc ||
+                (long double)au::floor_in<double>(Dst{}, q) != lf || (long double)au::ceil_as<long double>(Dst{}, q).in(Dst{}) != lc ||
+                (long double)au::floor_in<float>(Dst{}, pt2) != lf || (long double)au::round_as<float>(Dst{}, pt2).in(Dst{}) != (long double)ro || (long double)au::ceil_in<float>(Dst{}, pt2) != lc)
+                fail(x, "explicit floating OutputRep form differs from the implicit form although the result is exactly representable");
+        }
         long double frac = e - std::floor(e);
         bool on_boundary = (frac == 0 || frac == 0.5L);
         bool in_band = std::fabs(frac) < delta || std::fabs(frac - 0.5L) < delta || std::fabs(frac - 1) < delta;
